@@ -1467,7 +1467,7 @@ def gen_wrap_run(rng):
     """the allocation cursor comes back to a RUN of live ids that straddles 255 -> 0: requests number 254.. (ids 255, 0, 1 ..) or
     253.. (254, 255, 0) stay outstanding, 256 more requests to the same peer bring the cursor round again"""
     nodes = [node_cfg(1, retries=0, apduTimeout=250000), node_cfg(10, appTimeout=250000)]
-    run = rng.choice([[254, 255], [254, 255, 256], [253, 254, 255], [253, 254, 255, 256], [255, 256], [254, 256]])
+    run = rng.choice([[254, 255], [254, 255], [254, 255, 256], [253, 254, 255], [253, 254, 255], [253, 254, 255, 256], [255, 256], [254, 256]])
     extra = set(rng.sample(range(0, 250), rng.choice([0, 0, 2])))
     reqs = []
     t = 0
